@@ -56,8 +56,9 @@ def _solve1(smt2, timeout_ms, want_model, second_opinion=True):
         with tempfile.NamedTemporaryFile("w", suffix=".smt2", delete=False) as f:
             f.write("(set-logic ALL)\n" + smt2 + "\n")
             fn = f.name
-        p = subprocess.run(["/usr/bin/cvc5", "--tlimit", str(max(timeout_ms * 3, 30000)), "--full-saturate-quant", fn],
-                           capture_output=True, text=True, timeout=max(timeout_ms * 3, 30000) / 1000 + 10)
+        cvc5_ms = min(max(timeout_ms * 3, 30000), 90000)          # never more than 90 s per obligation for the second opinion
+        p = subprocess.run(["/usr/bin/cvc5", "--tlimit", str(cvc5_ms), "--full-saturate-quant", fn],
+                           capture_output=True, text=True, timeout=cvc5_ms / 1000 + 10)
         os.unlink(fn)
         ans = p.stdout.strip().splitlines()[0] if p.stdout.strip() else ""
         if ans == "unsat":
